@@ -297,7 +297,10 @@ func (vc *VC) call(in ssa.Instruction, c *ssa.CallCommon, st *State, reach Term)
 		if fi := vc.P.ifaceContract(c.Method); fi != nil {
 			// receiver must be non-nil to invoke
 			vc.oblige("safe:nil", "invoke", reach, not(app("(_ is dnil)", args[0].t)), pos, vc.construct(pos))
-			return vc.contractCall(fi, args, st, reach, rt, pos)
+			preSt := st.clone()
+			r := vc.contractCall(fi, args, st, reach, rt, pos)
+			vc.dispatchAssume(c.Method, args, r, preSt, st, reach)
+			return r
 		}
 		vc.oblige("safe:nil", "invoke", reach, not(app("(_ is dnil)", args[0].t)), pos, vc.construct(pos))
 	} else {
@@ -334,6 +337,9 @@ func (vc *VC) call(in ssa.Instruction, c *ssa.CallCommon, st *State, reach Term)
 	vc.havocForCall(c, st)
 	vc.keepUnreachable(preCall, st, reach)
 	res := vc.freshTyped(st, "call", rt, reach)
+	if c.IsInvoke() {
+		vc.dispatchAssume(c.Method, args, res, preCall, st, reach)
+	}
 	vc.mayPanicCall(c, res, st, reach)
 	return res
 }
@@ -503,6 +509,12 @@ func (vc *VC) contractCall(fi *FuncInfo, args []Val, st *State, reach Term, rt t
 	if fi.fc.Tallies != "" {
 		vc.tallyCall(fi, env, st)
 	}
+	if fi.fc.Counts && len(args) > 0 {
+		vc.countCall(fi.fc.Name, args[0], st)
+	}
+	if fi.fc.Stream && len(args) > 0 {
+		vc.streamAdvance(args[0], st)
+	}
 	// ghost state of an atomic cell: after the call it describes the callee's activation (its last
 	// load and its successful compare-and-swap, if any), which is what the callee's postconditions say
 	if len(fi.fc.Cas) > 0 || fi.mentionsAtomicGhost() {
@@ -521,6 +533,34 @@ func (vc *VC) contractCall(fi *FuncInfo, args []Val, st *State, reach Term, rt t
 	} else if len(fi.results) == 1 {
 		renv[fi.results[0]] = res
 	}
+	// call-history ghosts are per activation: the callee's postconditions describe what the callee did
+	// (from an empty history); the caller's history is then its own so far joined with the callee's
+	historyGhosts := fi.mentionsHistoryGhost()
+	if !historyGhosts && fi.fn != nil && !fi.fc.Trusted && vc.historyActive(fi.fn, map[*ssa.Function]bool{}) {
+		// the callee may call stored callbacks or bump counters but its contract is silent about it:
+		// the caller's history after the call is unknown (callbacks once invoked stay invoked)
+		ib := vc.heapGet(st, ghostInvoked, "(Array Int Bool)")
+		ni := vc.freshConst("invoked", "(Array Int Bool)")
+		vc.quantCtx = true
+		vc.addAssume("true", "(forall ((f Int)) (! (=> (select "+ib+" f) (select "+ni+" f)) :pattern ((select "+ni+" f))))")
+		vc.heapSet(st, ghostInvoked, "(Array Int Bool)", ni)
+		vc.heapSet(st, ghostTally, "(Array Int Int)", vc.freshConst("tally", "(Array Int Int)"))
+		for _, m := range vc.countedMethods() {
+			vc.heapSet(st, ghostCallsPrefix+m, ghostCallsSort, vc.freshConst("calls", ghostCallsSort))
+		}
+	}
+	var invBefore, talBefore Term
+	callsBefore := map[string]Term{}
+	if historyGhosts {
+		invBefore = vc.heapGet(st, ghostInvoked, "(Array Int Bool)")
+		talBefore = vc.heapGet(st, ghostTally, "(Array Int Int)")
+		vc.heapSet(st, ghostInvoked, "(Array Int Bool)", vc.freshConst("calleeinvoked", "(Array Int Bool)"))
+		vc.heapSet(st, ghostTally, "(Array Int Int)", vc.freshConst("calleetally", "(Array Int Int)"))
+		for _, m := range vc.countedMethods() {
+			callsBefore[m] = vc.callsGet(st, m)
+			vc.heapSet(st, ghostCallsPrefix+m, ghostCallsSort, vc.freshConst("calleecalls", ghostCallsSort))
+		}
+	}
 	for _, cl := range fi.fc.Ensures {
 		t := vc.clauseTerm(fi, cl, env, renv, st, pre)
 		vc.addAssume(reach, t)
@@ -528,7 +568,33 @@ func (vc *VC) contractCall(fi *FuncInfo, args []Val, st *State, reach Term, rt t
 			vc.assume("result naming (no obligation; the function is assumed to be a function of the named arguments within one caller): " + fi.qname() + ": " + cl.Text)
 		}
 	}
+	if historyGhosts {
+		ci := vc.heapGet(st, ghostInvoked, "(Array Int Bool)")
+		ct := vc.heapGet(st, ghostTally, "(Array Int Int)")
+		ni := vc.freshConst("invoked", "(Array Int Bool)")
+		nt := vc.freshConst("tally", "(Array Int Int)")
+		vc.quantCtx = true
+		vc.addAssume("true", "(forall ((f Int)) (! (= (select "+ni+" f) (or (select "+invBefore+" f) (select "+ci+" f))) :pattern ((select "+ni+" f))))")
+		vc.addAssume("true", "(forall ((k Int)) (! (= (select "+nt+" k) (+ (select "+talBefore+" k) (select "+ct+" k))) :pattern ((select "+nt+" k))))")
+		vc.heapSet(st, ghostInvoked, "(Array Int Bool)", ni)
+		vc.heapSet(st, ghostTally, "(Array Int Int)", nt)
+		for _, m := range vc.countedMethods() {
+			cc := vc.callsGet(st, m)
+			nc := vc.freshConst("calls", ghostCallsSort)
+			vc.addAssume("true", "(forall ((r Dyn)) (! (= (select "+nc+" r) (+ (select "+callsBefore[m]+" r) (select "+cc+" r))) :pattern ((select "+nc+" r))))")
+			vc.heapSet(st, ghostCallsPrefix+m, ghostCallsSort, nc)
+		}
+	}
 	return res
+}
+
+func (fi *FuncInfo) mentionsHistoryGhost() bool {
+	for _, cl := range fi.fc.Ensures {
+		if strings.Contains(cl.Text, "invoked(") || strings.Contains(cl.Text, "tally(") || strings.Contains(cl.Text, "calls(") {
+			return true
+		}
+	}
+	return false
 }
 
 // applyModifies havocs exactly the locations named by the callee's modifies clauses.
@@ -629,7 +695,10 @@ func (vc *VC) frameCheck(st *State, reach Term, pos token.Pos) {
 				h, _ := vc.heapItem(vc.fi, item)
 				whole[h] = true
 			case strings.HasSuffix(item, "[*]"):
-				v := vc.params[strings.TrimSuffix(item, "[*]")]
+				v, ok := vc.params[strings.TrimSuffix(item, "[*]")]
+				if !ok || v.typ == nil {
+					vc.fail("modifies %s: the base must be a slice parameter (use `modifies heap []T` for memory reached through a field)", item)
+				}
 				sl := v.typ.Underlying().(*types.Slice)
 				name, _ := vc.memName(sl.Elem())
 				ex = append(ex, excl{heap: name, ref: slRef(v.t), lo: slOff(v.t), hi: app("+", slOff(v.t), slLen(v.t))})
@@ -851,7 +920,7 @@ func (vc *VC) rangeInit(x *ssa.Range, st *State, reach Term) {
 	vc.heapSet(st, "iter@"+x.Name(), "Int", "0")
 	if mt, ok := x.X.Type().Underlying().(*types.Map); ok && vc.mapRangeNoInsert(x) {
 		// ghost: the set of keys this iteration has produced so far
-		vc.heapSet(st, "iter@seen@"+x.Name(), "(Array "+vc.S.sortOf(mt.Key())+" Bool)", "((as const (Array "+vc.S.sortOf(mt.Key())+" Bool)) false)")
+		vc.heapSet(st, "iter@seen@"+x.Name(), "(Array "+vc.S.keySort(mt.Key())+" Bool)", "((as const (Array "+vc.S.keySort(mt.Key())+" Bool)) false)")
 	}
 	vc.vals[x] = Val{t: "0", typ: x.Type()}
 }
@@ -893,7 +962,7 @@ func (vc *VC) next(x *ssa.Next, st *State, reach Term) {
 		// No entry is created in a map of this type while the loop runs (checked syntactically), so by the
 		// language definition every entry is produced at most once, and the iteration ends only when every
 		// entry still present has been produced (an entry removed before it is reached is not produced).
-		ks := vc.S.sortOf(mt.Key())
+		ks := vc.S.keySort(mt.Key())
 		sn := "iter@seen@" + r.Name()
 		seen := vc.heapGet(st, sn, "(Array "+ks+" Bool)")
 		kq := vc.freshName("k")
@@ -1189,6 +1258,48 @@ func (P *Program) ifaceContract(m *types.Func) *FuncInfo {
 func (fi *FuncInfo) mentionsAtomicGhost() bool {
 	for _, cl := range fi.fc.Ensures {
 		if strings.Contains(cl.Text, "lastCas") || strings.Contains(cl.Text, "lastLoad") {
+			return true
+		}
+	}
+	return false
+}
+
+// historyActive: the function (or a function of the module it calls, transitively) calls through a
+// `purefield` or calls a method whose contract has a `tallies` clause.
+func (vc *VC) historyActive(fn *ssa.Function, seen map[*ssa.Function]bool) bool {
+	if fn == nil || seen[fn] || len(seen) > 200 {
+		return false
+	}
+	seen[fn] = true
+	for _, b := range fn.Blocks {
+		for _, in := range b.Instrs {
+			ci, ok := in.(ssa.CallInstruction)
+			if !ok {
+				continue
+			}
+			c := ci.Common()
+			if c.IsInvoke() {
+				if g := vc.P.ifaceContract(c.Method); g != nil && (g.fc.Tallies != "" || g.fc.Counts) {
+					return true
+				}
+				continue
+			}
+			if f := c.StaticCallee(); f != nil {
+				if g := vc.P.contractFor(f); g != nil && g.fc.Tallies != "" {
+					return true
+				}
+				if f.Pkg != nil && strings.HasPrefix(f.Pkg.Pkg.Path(), modPath) && vc.historyActive(f, seen) {
+					return true
+				}
+				continue
+			}
+			if _, ok := vc.pureFieldOfValue(c.Value); ok {
+				return true
+			}
+		}
+	}
+	for _, a := range fn.AnonFuncs {
+		if vc.historyActive(a, seen) {
 			return true
 		}
 	}
